@@ -148,6 +148,73 @@ def main():
             h.violation(f"crash:{kind}", f"{tag}: raised {type(e).__name__}: {e}", input={**c, "object": kind})
         if ci < 3:
             h.sample({"case": tag})
+    # ---- histories: random sequences of flip_parity / ensure_negative_parity / get_parity_sign on ONE object; after every step the
+    # object's own rows (through EVERY way of reading them: the array, and for PIL-backed images the PIL object and a saved PNG)
+    # and its WCS must agree with where the original pixels are on the sky, and `ensure` must leave parity -1
+    for si in range(40 if h.deep else 16):
+        c = gen_case(rng)
+        H, W = c["h"], c["w"]
+        kind = ["array", "pil", "pil-touched", "desc"][si % 4]
+        wcs0 = make_wcs(c["cdelt"], c["pc"], c["crpix"])
+        data = (np.arange(H * W).reshape(H, W) % 251).astype(np.uint8)
+        rgb = np.stack([data, (data * 3) % 251, (data * 7) % 251], axis=2)
+        try:
+            with warnings.catch_warnings():
+                warnings.simplefilter("ignore")
+                if kind == "array":
+                    obj, rows0 = Image.from_array(data.astype(np.float32), wcs=wcs0.deepcopy()), data.astype(np.float32)
+                elif kind == "desc":
+                    obj, rows0 = ImageDescription(mode=ImageMode.F32, shape=(H, W), wcs=wcs0.deepcopy()), None
+                else:
+                    obj, rows0 = Image.from_pil(PILImage.fromarray(rgb), wcs=wcs0.deepcopy()), rgb
+                    if kind == "pil-touched":
+                        obj.asarray()
+                px = np.array([[0, 0], [W - 1, 0], [0, H - 1], [W - 1, H - 1], [W / 2.0, H / 3.0]], dtype=float)
+                world0 = wcs0.all_pix2world(px, 0)
+                nflip = 0
+                ops = [rng.choice(["flip", "ensure", "ensure", "sign"]) for _ in range(rng.randint(2, 6))]
+                if si % 5 == 0:
+                    ops = ["ensure", "flip", "ensure"]
+                bad = None
+                for oi, op in enumerate(ops):
+                    sign_before = obj.get_parity_sign()
+                    if op == "flip":
+                        obj.flip_parity()
+                        nflip += 1
+                    elif op == "ensure":
+                        obj.ensure_negative_parity()
+                        if sign_before == 1:
+                            nflip += 1
+                        if obj.get_parity_sign() != -1:
+                            bad = f"after step {oi} (ensure_negative_parity) the parity sign is {obj.get_parity_sign()}"
+                            break
+                    flipped = nflip % 2 == 1
+                    px2 = px.copy()
+                    if flipped:
+                        px2[:, 1] = H - 1 - px[:, 1]
+                    dd = np.abs(obj.wcs.all_pix2world(px2, 0) - world0)
+                    dd[:, 0] = np.minimum(dd[:, 0], 360 - dd[:, 0])
+                    if dd.max() > 1e-9:
+                        bad = f"after step {oi} ({op}) the WCS puts the original pixels up to {dd.max():.3g} deg away from where they were ({nflip} flips so far)"
+                        break
+                    if rows0 is not None:
+                        want_rows = rows0[::-1] if flipped else rows0
+                        views = [("asarray()", np.asarray(obj.asarray()))]
+                        if kind.startswith("pil"):
+                            views.append(("aspil()", np.asarray(obj.aspil())))
+                        for vname, v in views:
+                            if not np.array_equal(v, want_rows):
+                                bad = (f"after step {oi} ({op}; {nflip} flips so far) {vname} returns the rows in the "
+                                       f"{'original' if np.array_equal(v, rows0) else 'reversed' if np.array_equal(v, rows0[::-1]) else 'wrong'} order, the WCS says they are {'reversed' if flipped else 'original'}")
+                                break
+                        if bad:
+                            break
+                h.case(("history", kind, tuple(ops), c["style"], c["pc"], c["cdelt"], H))
+                h.count("object", "history-" + kind)
+                if bad:
+                    h.violation(f"history:{kind}", f"{kind} object {W}x{H}, {c['style']} pc={c['pc']} cdelt={c['cdelt']} crpix={c['crpix']}, operations {ops}: {bad}", input={**c, "object": kind, "operations": ops}, observed=bad)
+        except Exception as e:
+            h.violation(f"crash:history:{kind}", f"{kind} object, operations: raised {type(e).__name__}: {e}", input={**c, "object": kind})
     # ---- several objects built on ONE WCS object (two bands of an exposure; an image and its data-less description): each of them
     # is made negative-parity; for each, rows and WCS must agree afterwards, whatever was done to the others before
     for si in range(8 if h.deep else 4):
